@@ -175,6 +175,8 @@ func main() {
 	maxPrefixFile := run.Pick(1500, 1<<30)
 	for _, d := range corpus {
 		jobs <- job{"whole file", d.Name, d.Src}
+		// saved by an editor that writes a UTF-8 byte order mark (positions must count its three bytes, if the file is accepted at all)
+		jobs <- job{"whole file with a UTF-8 byte order mark", d.Name, "\ufeff" + d.Src}
 		if !strings.Contains(d.Src, "\r") {
 			jobs <- job{"whole file with CRLF line endings", d.Name, strings.ReplaceAll(d.Src, "\n", "\r\n")}
 			jobs <- job{"whole file with CR-only line endings in text", d.Name, strings.ReplaceAll(d.Src, "\n\t", "\r\n\t")}
